@@ -2,8 +2,8 @@ package sym
 
 import (
 	"fmt"
-	"os"
 	"math/big"
+	"os"
 	"runtime"
 	"sort"
 	"strings"
@@ -843,7 +843,7 @@ func (it *Interp) nondetSource(what string) {
 // generic values: p(atoms) ≡ 0 (mod n) for a polynomial with at least two monomials, and equality of the
 // coordinates of two syntactically different points.
 func (it *Interp) genericBothWays(c *smt.Term) bool {
-	if it.Cfg.NoSlice {
+	if it.Cfg.NoSlice || !it.Cfg.GenericFork {
 		return false
 	}
 	if c.Op == smt.ONot {
